@@ -68,8 +68,40 @@ package obfs4
 //@   assert_at bytes.Buffer).Write#2 [C05:validated_before_surface] arg0 == conn.receiveDecodedBuffer && pktType == 0 && err == nil && base(arg1) == &decoded && offset(arg1) == 3 && len(arg1) == payloadLen && payloadLen <= decLen - 3 && payloadLen > 0
 //@   assert_at WeightedDist).Reset [C09:client_adopts_seed] !conn.isServer && pktType == 1 && len(payload) == 24
 //@   ensures [C01:no_stranded_frame] err == nil || err == framing.ErrAgain ==> needMore(conn.decoder, conn.receiveBuffer)
+//@   ensures [C05:errors_surface] err == nil ==> len(conn.receiveBuffer.content) == 0
 //@   ensures [C10:rx_bound] len(conn.receiveBuffer.content) <= len(R0) + 23168
 //@   ensures [C05:decoded_only_grows] len(conn.receiveDecodedBuffer.content) >= len(D0) && sub(conn.receiveDecodedBuffer.content, 0, len(D0)) == D0
 //@   ensures [C10:decoded_bound] len(conn.receiveDecodedBuffer.content) - len(D0) <= (len(R0) + 23168) - len(conn.receiveBuffer.content)
 //@   ensures [C01:one_network_read] blocked == old(blocked) + 1 && conn.Conn.nreads == old(conn.Conn.nreads) + 1
 //@   ensures rxInv(conn) && distOK(conn)
+
+//@ func (*obfs4Conn).Read(conn, b) (n, err)
+//@   serves C01 C05 C10
+//@   requires rxInv(conn) && distOK(conn) && outside(b, conn) && outside(b, conn.receiveDecodedBuffer) && outside(b, conn.receiveBuffer) && outside(b, conn.decoder) && outside(b, conn.decoder.drbg) && outside(b, conn.decoder.drbg.sip) && outside(b, conn.lenDist) && outside(b, conn.iatDist)
+//@   requires [C01:no_block_with_frame_buffered] len(conn.receiveDecodedBuffer.content) == 0 ==> needMore(conn.decoder, conn.receiveBuffer)
+//@   modifies conn.receiveBuffer.*, conn.receiveDecodedBuffer.*, conn.decoder.nextLength, conn.decoder.nextLengthInvalid, conn.decoder.nextNonce, conn.decoder.nonce.counter, conn.decoder.drbg.sip.absorbed, conn.decoder.drbg.ofb
+//@   modifies elems(conn.readBuffer), conn.Conn.rd, conn.Conn.nreads, blocked, elems(b)
+//@   modifies conn.lenDist.values, conn.lenDist.weights, conn.lenDist.alias, conn.lenDist.prob, conn.iatDist.values, conn.iatDist.weights, conn.iatDist.alias, conn.iatDist.prob
+//@   ghost D0 := conn.receiveDecodedBuffer.content
+//@   loop 1 invariant rxInv(conn) && distOK(conn)
+//@   loop 1 invariant [C01:never_blocks_with_frame_buffered] err == nil && (needMore(conn.decoder, conn.receiveBuffer) || len(D0) > 0)
+//@   loop 1 invariant [C05:decoded_only_grows] len(conn.receiveDecodedBuffer.content) >= len(D0) && sub(conn.receiveDecodedBuffer.content, 0, len(D0)) == D0
+//@   loop 1 invariant [C01:no_read_when_data_pending] len(D0) > 0 ==> conn.receiveDecodedBuffer.content == D0 && blocked == old(blocked) && unchanged(conn.receiveBuffer.content)
+//@   ensures [C01:returns_decoded_prefix] 0 <= n && n <= len(b) && (len(D0) > 0 ==> n == min(len(b), len(D0)) && seq(b[0:n]) == sub(D0, 0, n) && blocked == old(blocked))
+//@   ensures [C01:no_read_when_data_pending] len(D0) > 0 ==> blocked == old(blocked) && conn.receiveDecodedBuffer.content == sub(D0, n, len(D0)) && unchanged(conn.receiveBuffer.content)
+//@   ensures [C05:data_then_error] n > 0 || err != nil || len(b) == 0
+//@   ensures [C01:no_stranded_frame] err == nil ==> needMore(conn.decoder, conn.receiveBuffer) || len(D0) > 0
+//@   ensures rxInv(conn) && distOK(conn)
+
+//@ func (*obfs4Conn).Write(conn, b) (n, err)
+//@   serves C01 C09 C10
+//@   requires txInv(conn) && distOK(conn) && wdInv(conn.lenDist) && (conn.iatMode != 0 ==> wdInv(conn.iatDist))
+//@   requires outside(conn.Conn, conn) && outside(conn.Conn, conn.encoder) && outside(conn.Conn, conn.encoder.drbg) && outside(conn.Conn, conn.encoder.drbg.sip)
+//@   modifies conn.encoder.nonce.counter, conn.encoder.drbg.sip.absorbed, conn.encoder.drbg.ofb, conn.Conn.wr, conn.Conn.nwrites
+//@   loop 1 invariant txInv(conn) && 0 <= n && n + len(chopBuf.content) == len(b) && chopBuf != nil
+//@   loop 1 invariant [C09:whole_frames] len(frameBuf.content) >= 0
+//@   loop 1 decreases len(chopBuf.content)
+//@   loop 2 invariant txInv(conn) && n == len(b)
+//@   assert_at (net.Conn).Write [C09:write_le_mss] conn.iatMode != 0 ==> 1 <= len(arg1) && len(arg1) <= 1448
+//@   ensures [C01:all_or_error] err == nil ==> n == len(b)
+//@   ensures txInv(conn)
